@@ -273,3 +273,95 @@ Proof.
     field. split; lra.
 Qed.
 End StabR.
+
+(* ---------- stab_shift: rescaling a core by 2^s shifts the exponent by s and nothing else ---------- *)
+(* stated for the repaired default threshold thr = 0 (for thr > 0 the threshold decision itself is not
+   scale invariant) and for the exact contract of floor(log2 .) *)
+Section Shift.
+Variable ilog2 : R -> Z.
+Hypothesis Hlog : ilog2_ok 1 ilog2.
+
+Lemma stab_entries_shift w q s : 0 < vmax OR w ->
+  stab_entries OR ilog2 0%R (vscale OR (powerRZ 2 s) w) q =
+  (fst (stab_entries OR ilog2 0%R w q), (snd (stab_entries OR ilog2 0%R w q) + s)%Z).
+Proof.
+  intros Hw. pose proof (p2_pos s) as Hs. unfold vscale. cbn [omul OR].
+  assert (M : vmax OR (map (fun x => powerRZ 2 s * x) w) = powerRZ 2 s * vmax OR w) by (apply vmax_scale; lra).
+  unfold stab_entries. cbn [oleb odiv opow2 OR]. rewrite M.
+  destruct (Rleb (powerRZ 2 s * vmax OR w) 0) eqn:E1; [apply Rleb_true in E1; nra|].
+  destruct (Rleb (vmax OR w) 0) eqn:E2; [apply Rleb_true in E2; lra|]. cbn [fst snd].
+  rewrite (ilog2_shift ilog2 _ s Hlog Hw). f_equal; [|lia].
+  rewrite map_map. apply map_ext. intros x. rewrite powerRZ_add by exact two_neq0.
+  pose proof (p2_pos (ilog2 (vmax OR w))). field. split; lra.
+Qed.
+
+(* general form: the step at one position is multiplied by 2^s (whichever of the two cores carries it) *)
+Theorem run2s_shift A A2 G1 G2 G1' G2' B B2 s : length A = length A2 ->
+  let st := run2s OR ilog2 0%R [1] 0%Z A A2 in
+  vstep2 OR (fst st) G1' G2' = vscale OR (powerRZ 2 s) (vstep2 OR (fst st) G1 G2) ->
+  0 < vmax OR (vstep2 OR (fst st) G1 G2) ->
+  mul_scalar_stab OR ilog2 0%R (A ++ G1' :: B) (A2 ++ G2' :: B2) =
+  (fst (mul_scalar_stab OR ilog2 0%R (A ++ G1 :: B) (A2 ++ G2 :: B2)),
+   (snd (mul_scalar_stab OR ilog2 0%R (A ++ G1 :: B) (A2 ++ G2 :: B2)) + s)%Z).
+Proof.
+  intros L st Hstep Hnz. unfold mul_scalar_stab. cbn [o1 o0 OR].
+  rewrite !(run2s_app OR ilog2 0%R A A2) by exact L. fold st. cbn [run2s].
+  rewrite Hstep, stab_entries_shift by exact Hnz. cbn [fst snd].
+  set (se := stab_entries OR ilog2 0%R (vstep2 OR (fst st) G1 G2) (snd st)).
+  rewrite (run2s_p0 OR ilog2 0%R B B2 (fst se) (snd se + s)%Z).
+  rewrite (run2s_p0 OR ilog2 0%R B B2 (fst se) (snd se)). cbn [fst snd]. f_equal. lia.
+Qed.
+(* one core of the first tensor rescaled by 2^s: mantissa identical, exponent + s *)
+Theorem stab_shift A A2 G1 G2 B B2 s : length A = length A2 ->
+  0 < vmax OR (vstep2 OR (fst (run2s OR ilog2 0%R [1] 0%Z A A2)) G1 G2) ->
+  mul_scalar_stab OR ilog2 0%R (A ++ core_scale OR (powerRZ 2 s) G1 :: B) (A2 ++ G2 :: B2) =
+  (fst (mul_scalar_stab OR ilog2 0%R (A ++ G1 :: B) (A2 ++ G2 :: B2)),
+   (snd (mul_scalar_stab OR ilog2 0%R (A ++ G1 :: B) (A2 ++ G2 :: B2)) + s)%Z).
+Proof.
+  intros L Hnz. apply run2s_shift; auto. apply (vstep2_core_scale_l OR OR_rng).
+Qed.
+(* norm: the core is rescaled in both arguments: mantissa identical, half-exponent numerator + 2 s, i.e.
+   the exponent p/2 of the norm moves by s *)
+Theorem stab_shift_norm A G B s :
+  0 < vmax OR (vstep2 OR (fst (run2s OR ilog2 0%R [1] 0%Z A A)) G G) ->
+  norm_stab OR ilog2 0%R (A ++ core_scale OR (powerRZ 2 s) G :: B) =
+  (fst (norm_stab OR ilog2 0%R (A ++ G :: B)), (snd (norm_stab OR ilog2 0%R (A ++ G :: B)) + 2 * s)%Z).
+Proof.
+  intros Hnz. unfold norm_stab.
+  rewrite (run2s_shift A A G G (core_scale OR (powerRZ 2 s) G) (core_scale OR (powerRZ 2 s) G) B B (s + s)).
+  - cbn [fst snd]. f_equal. lia.
+  - reflexivity.
+  - cbv zeta. rewrite (vstep2_core_scale_l OR OR_rng). rewrite (vstep2_core_scale_r OR OR_rng) by reflexivity.
+    unfold vscale. rewrite map_map. apply map_ext. intros x. cbn [omul OR].
+    rewrite powerRZ_add by exact two_neq0. ring.
+  - exact Hnz.
+Qed.
+End Shift.
+
+(* ---------- the d-th root used by truncate(use_stab): (2^(p/d))^d = 2^p ---------- *)
+Definition rootR (p : Z) (d : nat) : R := Rpower 2 (IZR p / INR d).
+Lemma opow_pow c d : opow OR c d = c ^ d.
+Proof. induction d; cbn [opow pow omul o1 OR]; [reflexivity|now rewrite IHd]. Qed.
+Lemma rootR_spec p d : (0 < d)%nat -> opow OR (rootR p d) d = powerRZ 2 p.
+Proof.
+  intros Hd. rewrite opow_pow. unfold rootR. rewrite <- Rpower_pow by (unfold Rpower; apply exp_pos).
+  rewrite Rpower_mult. rewrite powerRZ_Rpower by lra. f_equal. field.
+  apply not_0_INR. lia.
+Qed.
+
+(* ---------- the contract of floor(log2 .) is satisfiable (non-vacuity of [ilog2_ok 1]) ---------- *)
+Definition ilog2R (v : R) : Z := (up (ln v / ln 2) - 1)%Z.
+Lemma ln2_pos : 0 < ln 2. Proof. pose proof ln_lt_2. lra. Qed.
+Lemma ilog2R_ok : ilog2_ok 1 ilog2R.
+Proof.
+  intros v Hv. unfold ilog2R. set (r := ln v / ln 2). destruct (archimed r) as [U1 U2].
+  pose proof ln2_pos as L2.
+  assert (Ev : v = exp (r * ln 2)).
+  { unfold r. replace (ln v / ln 2 * ln 2) with (ln v) by (field; lra). symmetry. now apply exp_ln. }
+  replace (up r - 1 + 1)%Z with (up r) by ring.
+  rewrite !powerRZ_Rpower by lra. unfold Rpower. rewrite minus_IZR. split.
+  - rewrite Rmult_1_l. rewrite Ev at 1. destruct (Req_dec ((IZR (up r) - 1) * ln 2) (r * ln 2)) as [E|E].
+    + rewrite E. lra.
+    + left. apply exp_increasing. nra.
+  - rewrite Ev at 1. apply exp_increasing. nra.
+Qed.
